@@ -396,15 +396,44 @@ def write_replay(prop_id, payload):
     return path
 
 
+class CaseTimeout(KeyboardInterrupt):
+    pass
+
+
 def _impl_worker(args):
+    import signal
     prop, cases = args
     res = []
+    limit = getattr(prop, 'case_timeout', 20)
+
+    def on_alarm(signum, frame):
+        raise CaseTimeout()
+    try:
+        old = signal.signal(signal.SIGALRM, on_alarm)
+    except ValueError:           # not the main thread: no limit available
+        old = None
+    hangs = 0
     for c in cases:
+        if hangs >= 2:           # do not spend the whole budget waiting: the first hangs are reported
+            res.append({'__skipped_after_hangs__': True})
+            continue
         try:
+            if old is not None:
+                signal.setitimer(signal.ITIMER_REAL, limit, 1.0)     # repeats: clean-up code may block too
             res.append(prop.run_impl(c))
+        except CaseTimeout:      # the implementation hangs or runs away on this input: a finding, not a stall
+            signal.setitimer(signal.ITIMER_REAL, 0)
+            hangs += 1
+            res.append({'__driver_error__': f'the implementation did not finish within {limit} s on this input '
+                                            '(hang or runaway loop)', 'tb': ''})
         except Exception as e:     # the driver itself failed: report, never hide
             res.append({'__driver_error__': f'{type(e).__name__}: {e}',
                         'tb': traceback.format_exc()[-800:]})
+        finally:
+            if old is not None:
+                signal.setitimer(signal.ITIMER_REAL, 0)
+    if old is not None:
+        signal.signal(signal.SIGALRM, old)
     return res
 
 
@@ -480,8 +509,11 @@ def run_check(prop, tier, seed, replay=None):
     nontrivial = 0
     terms, term_idx = [], []
     for i, (c, o) in enumerate(zip(cases, obs)):
+        if isinstance(o, dict) and '__skipped_after_hangs__' in o:
+            continue
         if isinstance(o, dict) and '__driver_error__' in o:
-            failures.append(Failure(c, o, 'harness driver error: ' + o['__driver_error__']))
+            msg = o['__driver_error__']
+            failures.append(Failure(c, o, msg if msg.startswith('the implementation did not finish') else 'harness driver error: ' + msg))
             continue
         cl = prop.oracle(c, o)
         if cl:
